@@ -731,6 +731,266 @@ def roundtripB (h : Heap) (r : Ref) : Bool :=
       | some c, some c' => c == c'
       | _, _ => false
 
+/-! ### the heaps for which the round trip is PROVED (`PepperProofs/Pickle.lean: Supported`, `roundtrip_supported`), as a
+    decidable check (`supportedB_sound`); the driver evaluates it on every real heap (op `pickle-supported`) -/
+
+/-- the texts of the keys of a flattened pair list, when all keys are `str` cells -/
+def keyStrs (H : Heap) : List Ref → Option (List String)
+  | [] => some []
+  | [_] => none
+  | k :: _ :: rest =>
+    match strOf H k, keyStrs H rest with
+    | some s, some ss => some (s :: ss)
+    | _, _ => none
+
+def strKeysB (h : Heap) (kids : List Ref) : Bool :=
+  match keyStrs h kids with
+  | some ss => decide ss.Nodup
+  | none => false
+
+def classB (h : Heap) (cls : Ref) : Bool :=
+  match h[cls]? with
+  | some ⟨.global, [mo, na]⟩ => (strOf h mo).isSome && (strOf h na).isSome
+  | _ => false
+
+def okCellB (h : Heap) (c : Cell) : Bool :=
+  match c.tag with
+  | .str _ | .bytes _ => c.kids.isEmpty
+  | .list => decide (c.kids.length ≤ batchSize)
+  | .dict => decide (c.kids.length < 2 * batchSize) && strKeysB h c.kids
+  | .global => match c.kids with
+    | [mo, na] => (strOf h mo).isSome && (strOf h na).isSome
+    | _ => false
+  | .obj .. => match c.objParts? with
+    | none => false
+    | some p =>
+      c == p.cell && p.items.isEmpty &&
+      (match h[p.args]? with | some ca => ca.tag == .tuple && ca.kids.isEmpty | none => false) &&
+      classB h p.cls && decide (p.ditems.length < 2 * batchSize) && strKeysB h p.ditems &&
+      (match p.state with
+        | none => true
+        | some d => match h[d]? with
+          | some cd => cd.tag == .dict && !cd.kids.isEmpty && strKeysB h cd.kids
+          | none => false)
+  | .set | .frozenset => false
+  | _ => true
+
+def stateAt (h : Heap) (o : Ref) : Option Ref :=
+  match h[o]? with
+  | some c => match c.objParts? with
+    | some p => p.state
+    | none => none
+  | none => none
+
+/-- the state dicts of all instances -/
+def stateRefs (h : Heap) : List Ref := (List.range h.size).filterMap (stateAt h)
+
+def ownerB (h : Heap) (states : List Ref) : Bool :=
+  (List.range h.size).all fun p =>
+    match h[p]? with
+    | none => true
+    | some c => c.kids.all fun k =>
+      !states.contains k ||
+      (match c.objParts? with
+        | some pp => pp.state == some k && k != pp.cls && k != pp.args && !pp.items.contains k && !pp.ditems.contains k
+        | none => false)
+
+def uniqB (h : Heap) : Bool :=
+  let owners := (List.range h.size).filter (fun o => (stateAt h o).isSome)
+  owners.all fun o1 => owners.all fun o2 => o1 == o2 || stateAt h o1 != stateAt h o2
+
+def supportedB (h : Heap) (r : Ref) : Bool :=
+  (List.range h.size).all (fun i => match h[i]? with | some c => okCellB h c | none => true) &&
+  !(stateRefs h).contains r && ownerB h (stateRefs h) && uniqB h
+
+/-! ### the C16 snapshot read off a decoded heap
+(mirrors `harness/snapshot.py: snap` — the `tree` part — on the cell vocabulary: attribute lookup in an instance's state
+dict, `OrderedDict` items = the dict items of a `REDUCE`d object, `isinstance(s, SuperSequence)` = the class's qualified
+name is `SuperSequence`, `ReverseSuperSequence` or `Strand`; `"%f" % s.opt` is left to the caller: the number is handed
+out as it is in the heap) -/
+
+structure SnapSeq where
+  name : String
+  sup : Bool
+  len : Int
+  const : String
+  items : List (String × Bool)
+  bases : List (String × Bool × Int)
+  deriving Repr, DecidableEq
+
+structure SnapStrand where
+  name : String
+  dummy : Bool
+  len : Int
+  items : List (String × Bool)
+  bases : List (String × Bool × Int)
+  deriving Repr, DecidableEq
+
+structure SnapStruct where
+  name : String
+  strands : List String
+  struct : String
+  opt : Tag                  -- `int z` or `float bits`
+  bases : List (String × Bool × Int)
+  deriving Repr, DecidableEq
+
+structure SnapComp where
+  pfx : String
+  seqs : List SnapSeq
+  strands : List SnapStrand
+  structs : List SnapStruct
+  kins : List (String × List String × List String)
+  deriving Repr, DecidableEq
+
+inductive SnapInst
+  | comp (c : SnapComp)
+  | sys (pfx : String) (signals : List (String × List (String × String × Bool))) (lengths : List (String × Int))
+      (components : List (String × SnapInst))
+  deriving Repr
+
+def pairsOf : List Ref → List (Ref × Ref)
+  | k :: v :: rest => (k, v) :: pairsOf rest
+  | _ => []
+
+/-- value of the attribute `name` of the instance `o` -/
+def attr (h : Heap) (o : Ref) (name : String) : Option Ref :=
+  match h[o]? with
+  | some c => match c.objParts? with
+    | some p => match p.state with
+      | some d => match h[d]? with
+        | some ⟨.dict, kids⟩ => ((pairsOf kids).find? (fun kv => strOf h kv.1 == some name)).map (·.2)
+        | _ => none
+      | none => none
+    | none => none
+  | none => none
+
+/-- `(key, value)` pairs of an `OrderedDict` (or plain dict) with string keys -/
+def odItems (h : Heap) (o : Ref) : Option (List (String × Ref)) :=
+  match h[o]? with
+  | some c =>
+    let kvs := match c.tag with
+      | .dict => some (pairsOf c.kids)
+      | .obj .. => c.objParts?.map (fun (p : ObjParts) => pairsOf p.ditems)
+      | _ => none
+    kvs.bind (mapOpt (fun kv => (strOf h kv.1).map (fun s => (s, kv.2))))
+  | none => none
+
+def intAt (h : Heap) (r : Ref) : Option Int :=
+  match h[r]? with
+  | some ⟨.int z, _⟩ => some z
+  | some ⟨.bool b, _⟩ => some (if b then 1 else 0)
+  | _ => none
+
+/-- `bool(x)` for the values that occur (bools, ints, None) -/
+def boolAt (h : Heap) (r : Ref) : Option Bool :=
+  match h[r]? with
+  | some c => truthy c
+  | none => none
+
+def seqAt (h : Heap) (r : Ref) : Option (List Ref) :=
+  match h[r]? with
+  | some ⟨.list, ks⟩ => some ks
+  | some ⟨.tuple, ks⟩ => some ks
+  | _ => none
+
+def className (h : Heap) (o : Ref) : Option String :=
+  match h[o]? with
+  | some c => match c.objParts? with
+    | some p => (classNames h p.cls).map (·.2)
+    | none => none
+  | none => none
+
+def strAttr (h : Heap) (o : Ref) (n : String) : Option String := (attr h o n).bind (strOf h)
+def intAttr (h : Heap) (o : Ref) (n : String) : Option Int := (attr h o n).bind (intAt h)
+def boolAttr (h : Heap) (o : Ref) (n : String) : Option Bool := (attr h o n).bind (boolAt h)
+def listAttr (h : Heap) (o : Ref) (n : String) : Option (List Ref) := (attr h o n).bind (seqAt h)
+
+def dropLast (s : String) : String := String.ofList s.toList.dropLast
+def rstripStar (s : String) : String := String.ofList (s.toList.reverse.dropWhile (· == '*')).reverse
+
+/-- `[i.name[:-1] if i.reversed else i.name, bool(i.reversed)]` -/
+def snapItem (h : Heap) (i : Ref) : Option (String × Bool) := do
+  let n ← strAttr h i "name"
+  let rv ← boolAttr h i "reversed"
+  pure (if rv then dropLast n else n, rv)
+
+/-- `[b.name.rstrip("*") if b.reversed else b.name, bool(b.reversed), b.length]` -/
+def snapBase (h : Heap) (b : Ref) : Option (String × Bool × Int) := do
+  let n ← strAttr h b "name"
+  let rv ← boolAttr h b "reversed"
+  let l ← intAttr h b "length"
+  pure (if rv then rstripStar n else n, rv, l)
+
+def isSuperClass (n : String) : Bool := n == "SuperSequence" || n == "ReverseSuperSequence" || n == "Strand"
+
+def snapSeq (h : Heap) (name : String) (s : Ref) : Option SnapSeq := do
+  let cn ← className h s
+  let len ← intAttr h s "length"
+  if isSuperClass cn then
+    let items ← (← listAttr h s "seqs").mapM (snapItem h)
+    let bases ← (← listAttr h s "base_seqs").mapM (snapBase h)
+    pure ⟨name, true, len, "", items, bases⟩
+  else
+    let const ← strAttr h s "const"
+    pure ⟨name, false, len, const, [], [(name, false, len)]⟩
+
+def snapStrand (h : Heap) (name : String) (s : Ref) : Option SnapStrand := do
+  let dummy ← boolAttr h s "dummy"
+  let len ← intAttr h s "length"
+  let items ← (← listAttr h s "seqs").mapM (snapItem h)
+  let bases ← (← listAttr h s "base_seqs").mapM (snapBase h)
+  pure ⟨name, dummy, len, items, bases⟩
+
+def snapStruct (h : Heap) (name : String) (s : Ref) : Option SnapStruct := do
+  let strands ← (← listAttr h s "strands").mapM (fun x => strAttr h x "name")
+  let st ← strAttr h s "struct"
+  let optRef ← attr h s "opt"
+  let opt ← (h[optRef]?).map (·.tag)
+  let bases ← (← listAttr h s "base_seqs").mapM (snapBase h)
+  pure ⟨name, strands, st, opt, bases⟩
+
+def snapKin (h : Heap) (name : String) (k : Ref) : Option (String × List String × List String) := do
+  let ins ← (← listAttr h k "inputs").mapM (fun x => strAttr h x "name")
+  let outs ← (← listAttr h k "outputs").mapM (fun x => strAttr h x "name")
+  pure (name, ins, outs)
+
+def snapComp (h : Heap) (c : Ref) : Option SnapComp := do
+  let pfx ← strAttr h c "prefix"
+  let seqs ← (← odItems h (← attr h c "seqs")).mapM (fun (n, s) => snapSeq h n s)
+  let strands ← (← odItems h (← attr h c "strands")).mapM (fun (n, s) => snapStrand h n s)
+  let structs ← (← odItems h (← attr h c "structs")).mapM (fun (n, s) => snapStruct h n s)
+  let kins ← (← odItems h (← attr h c "kinetics")).mapM (fun (n, s) => snapKin h n s)
+  pure ⟨pfx, seqs, strands, structs, kins⟩
+
+/-- one `(port, cname, wc)` entry of a signal: a port that is a string is a sub-system's signal (`"@" + port`) -/
+def snapSignalEntry (h : Heap) (e : Ref) : Option (String × String × Bool) := do
+  match ← seqAt h e with
+  | [port, cname, wc] =>
+    let pn ← match strOf h port with
+      | some s => some ("@" ++ s)
+      | none => strAttr h port "name"
+    let cn ← strOf h cname
+    let w ← boolAt h wc
+    pure (pn, cn, w)
+  | _ => none
+
+def snapInst (h : Heap) : Nat → Ref → Option SnapInst
+  | 0, _ => none
+  | fuel + 1, o => do
+    let cn ← className h o
+    if cn == "Component" then (snapComp h o).map .comp
+    else
+      let pfx ← strAttr h o "prefix"
+      let sigs ← (← odItems h (← attr h o "signals")).mapM (fun (n, es) => do
+        let rows ← (← seqAt h es).mapM (snapSignalEntry h)
+        pure (n, rows))
+      let lens ← (← odItems h (← attr h o "lengths")).mapM (fun (n, l) => (intAt h l).map (fun z => (n, z)))
+      let comps ← (← odItems h (← attr h o "components")).mapM (fun (n, s) => (snapInst h fuel s).map (fun i => (n, i)))
+      pure (.sys pfx sigs lens comps)
+
+/-- the C16 snapshot of the system rooted at `r` of a decoded heap -/
+def snapshotOfHeap (h : Heap) (r : Ref) : Option SnapInst := snapInst h 64 r
+
 /-! ### statistics (evidence only) -/
 
 def countTag (h : Heap) (order : List Ref) (p : Tag → Bool) : Nat :=
